@@ -3,12 +3,17 @@ configuration cells of src/config.rs::DynamicConfig.
 
 What the extraction drops / replaces (R15-style, stated):
  * serde_json (parsing a line into a Request, Value, the json! macro), string comparison and trimming are trusted
-   UNINTERPRETED stubs; handle_method (string match on the method name + JSON parameter extraction) is a stub.
+   UNINTERPRETED stubs.  handle_method / parse_mode are verified bodies: R20 turns the string-literal `match` into an
+   if-chain over the trusted `str_eq`; `params.get("k").and_then(Value::as_T).ok_or_else(|| ErrorObject::new(CODE, "msg"))?`
+   becomes `json_get_T(params, "k").ok_or(error_object_new(CODE))?` (message text dropped, R2); `json!({ "k": e, .. })`
+   becomes a builder chain `json_obj(jfields_push(.., "k", jv(e)))` over uninterpreted JSON constructors, so the KEYS and
+   the VALUE EXPRESSIONS of every reply stay in the verified text while JSON encoding itself is trusted.
  * the shared atomics (Arc<AtomicXX>, Ordering::Relaxed) are SEQUENTIALISED: every cell becomes a plain cell, setters take
    `&mut self`.  Concurrent setters / snapshot readers are out of reach."""
 import re
 
 from gen import Unit, C, impl_block
+from rustlex import match_bracket
 import prelude
 
 CT = 'src/control.rs'
@@ -34,13 +39,34 @@ pub uninterp spec fn spec_parse_request(line: Seq<char>) -> Result<Request, Serd
 #[verifier::external_body] pub fn parse_request(line: &str) -> (r: Result<Request, SerdeErr>) ensures r == spec_parse_request(line@) { unimplemented!() }
 // ErrorObject::new(code, impl Into<String>)  (message text dropped, R2)
 #[verifier::external_body] pub fn error_object_new(code: i32) -> (r: ErrorObject) ensures r.code == code { unimplemented!() }
-// handle_method: `match method { "set_mode" => .. }` + JSON parameter extraction: outside the subset.
-// ASSUMED (unchecked): it returns Ok(result) or Err with code -32601 / -32602 / -32603.
-pub uninterp spec fn spec_handle(method: Seq<char>, params: &Value) -> Result<Value, ErrorObject>;
-#[verifier::external_body]
-pub fn handle_method(config: &DynamicConfig, stats: Option<&SharedStats>, cw: Option<&CriticalWindow>, method: &String, params: &Value) -> (r: Result<Value, ErrorObject>)
-    ensures r == spec_handle(method@, params), r is Err ==> (r->Err_0.code == -32601 || r->Err_0.code == -32602 || r->Err_0.code == -32603),
-{ unimplemented!() }
+// string equality / JSON parameter access / JSON construction
+#[verifier::external_body] pub fn str_eq(a: &str, b: &str) -> (r: bool) ensures r == (a@ == b@) { a == b }
+#[verifier::external_body] pub fn string_as_str<'a>(s: &'a String) -> (r: &'a str) ensures r@ == s@ { s.as_str() }
+pub uninterp spec fn spec_json_get_str(v: &Value, k: Seq<char>) -> Option<Seq<char>>;
+pub uninterp spec fn spec_json_get_bool(v: &Value, k: Seq<char>) -> Option<bool>;
+pub uninterp spec fn spec_json_get_u64(v: &Value, k: Seq<char>) -> Option<u64>;
+#[verifier::external_body] pub fn json_get_str<'a>(v: &'a Value, k: &str) -> (r: Option<&'a str>)
+    ensures (r is Some) == (spec_json_get_str(v, k@) is Some), r is Some ==> r.unwrap()@ == spec_json_get_str(v, k@).unwrap() { unimplemented!() }
+#[verifier::external_body] pub fn json_get_bool(v: &Value, k: &str) -> (r: Option<bool>) ensures r == spec_json_get_bool(v, k@) { unimplemented!() }
+#[verifier::external_body] pub fn json_get_u64(v: &Value, k: &str) -> (r: Option<u64>) ensures r == spec_json_get_u64(v, k@) { unimplemented!() }
+#[verifier::external_body] pub struct JField { _p: () }
+#[verifier::external_body] pub struct JFields { _p: () }
+pub uninterp spec fn spec_jv<T>(x: T) -> Value;
+pub uninterp spec fn spec_jf(k: Seq<char>, v: Value) -> JField;
+pub uninterp spec fn spec_json_obj(fs: Seq<JField>) -> Value;
+impl JFields { pub uninterp spec fn view(&self) -> Seq<JField>; }
+#[verifier::external_body] pub fn jv<T>(x: T) -> (r: Value) ensures r == spec_jv::<T>(x) { unimplemented!() }
+#[verifier::external_body] pub fn jfields_new() -> (r: JFields) ensures r@ == Seq::<JField>::empty() { unimplemented!() }
+#[verifier::external_body] pub fn jfields_push(fs: JFields, k: &str, v: Value) -> (r: JFields) ensures r@ == fs@.push(spec_jf(k@, v)) { unimplemented!() }
+#[verifier::external_body] pub fn json_obj(fs: JFields) -> (r: Value) ensures r == spec_json_obj(fs@) { unimplemented!() }
+// Display for SchedulingMode (write! macros: outside the subset) -- ASSUMED to print "classic" / "enhanced"
+pub uninterp spec fn spec_mode_string(m: SchedulingMode) -> String;
+#[verifier::external_body] pub fn mode_to_string(m: SchedulingMode) -> (r: String) ensures r == spec_mode_string(m) { unimplemented!() }
+// CriticalWindow counters, SharedStats::to_json, re-parse of the stats JSON
+pub uninterp spec fn spec_cw_counters(cw: Option<&CriticalWindow>) -> (u64, u64);
+#[verifier::external_body] pub fn cw_counters(cw: Option<&CriticalWindow>) -> (r: (u64, u64)) ensures r == spec_cw_counters(cw) { unimplemented!() }
+#[verifier::external_body] pub fn stats_to_json(s: &SharedStats) -> String { unimplemented!() }
+#[verifier::external_body] pub fn reparse_stats(s: &String) -> (r: Result<Value, ErrorObject>) ensures r is Err ==> r->Err_0.code == INTERNAL_ERROR { unimplemented!() }
 
 // ---------- sequentialised atomic cells ----------
 pub struct CellU8 { pub v: u8 }
@@ -74,6 +100,74 @@ impl DynamicConfig {
             stall_ack_stale_ms: self.stall_ack_stale_ms.v, conn_timeout_ms: self.conn_timeout_ms.v }
     }
 }
+
+// ---------- handle_method: what each method must do (C18) ----------
+pub open spec fn valid_mode_name(s: Seq<char>) -> bool { s == "classic"@ || s == "enhanced"@ }
+pub open spec fn mode_of_name(s: Seq<char>) -> SchedulingMode { if s == "classic"@ { SchedulingMode::Classic } else { SchedulingMode::Enhanced } }
+pub open spec fn is_plain_method(m: Seq<char>) -> bool {
+    m == "set_mode"@ || m == "set_quality"@ || m == "set_stall_deselect"@ || m == "set_conn_timeout"@ || m == "get_status"@ || m == "get_stats"@
+}
+pub open spec fn spec_status_json(snap: ConfigSnapshot, c: (u64, u64)) -> Value {
+    spec_json_obj(Seq::<JField>::empty()
+        .push(spec_jf("mode"@, spec_jv(spec_mode_string(snap.mode)))).push(spec_jf("quality_enabled"@, spec_jv(snap.quality_enabled)))
+        .push(spec_jf("stall_deselect"@, spec_jv(snap.stall_deselect))).push(spec_jf("stall_min_in_flight"@, spec_jv(snap.stall_min_in_flight)))
+        .push(spec_jf("stall_ack_stale_ms"@, spec_jv(snap.stall_ack_stale_ms))).push(spec_jf("conn_timeout_ms"@, spec_jv(snap.conn_timeout_ms)))
+        .push(spec_jf("critical_windows_received"@, spec_jv(c.0))).push(spec_jf("critical_malformed_datagrams"@, spec_jv(c.1))))
+}
+pub open spec fn hp_unknown(o: &DynamicConfig, n: &DynamicConfig, m: Seq<char>, r: Result<Value, ErrorObject>) -> bool {
+    !is_plain_method(m) ==> r is Err && r->Err_0.code == -32601 && *n == *o
+}
+pub open spec fn hp_bad_params(o: &DynamicConfig, n: &DynamicConfig, m: Seq<char>, p: &Value, r: Result<Value, ErrorObject>) -> bool {
+    ((m == "set_mode"@ && (spec_json_get_str(p, "mode"@) is None || !valid_mode_name(spec_json_get_str(p, "mode"@).unwrap())))
+        || (m == "set_quality"@ && spec_json_get_bool(p, "enabled"@) is None)
+        || (m == "set_stall_deselect"@ && spec_json_get_bool(p, "enabled"@) is None)
+        || (m == "set_conn_timeout"@ && spec_json_get_u64(p, "ms"@) is None))
+    ==> r is Err && r->Err_0.code == -32602 && *n == *o
+}
+pub open spec fn hp_set_mode(o: &DynamicConfig, n: &DynamicConfig, m: Seq<char>, p: &Value, r: Result<Value, ErrorObject>) -> bool {
+    m == "set_mode"@ && spec_json_get_str(p, "mode"@) is Some && valid_mode_name(spec_json_get_str(p, "mode"@).unwrap()) ==> {
+        let md = mode_of_name(spec_json_get_str(p, "mode"@).unwrap());
+        &&& r is Ok
+        &&& n.view_snapshot() == (ConfigSnapshot { mode: md, ..o.view_snapshot() })
+        &&& r->Ok_0 == spec_json_obj(seq![spec_jf("mode"@, spec_jv(spec_mode_string(md)))])
+    }
+}
+pub open spec fn hp_set_quality(o: &DynamicConfig, n: &DynamicConfig, m: Seq<char>, p: &Value, r: Result<Value, ErrorObject>) -> bool {
+    m == "set_quality"@ && spec_json_get_bool(p, "enabled"@) is Some ==> {
+        let e = spec_json_get_bool(p, "enabled"@).unwrap();
+        &&& r is Ok
+        &&& n.view_snapshot() == (ConfigSnapshot { quality_enabled: e, ..o.view_snapshot() })
+        &&& r->Ok_0 == spec_json_obj(seq![spec_jf("enabled"@, spec_jv(e))])
+    }
+}
+pub open spec fn hp_set_stall(o: &DynamicConfig, n: &DynamicConfig, m: Seq<char>, p: &Value, r: Result<Value, ErrorObject>) -> bool {
+    m == "set_stall_deselect"@ && spec_json_get_bool(p, "enabled"@) is Some ==> {
+        let e = spec_json_get_bool(p, "enabled"@).unwrap();
+        &&& r is Ok
+        &&& n.view_snapshot() == (ConfigSnapshot { stall_deselect: e, ..o.view_snapshot() })
+        &&& r->Ok_0 == spec_json_obj(seq![spec_jf("enabled"@, spec_jv(e))])
+    }
+}
+pub open spec fn hp_set_timeout(o: &DynamicConfig, n: &DynamicConfig, m: Seq<char>, p: &Value, r: Result<Value, ErrorObject>) -> bool {
+    m == "set_conn_timeout"@ && spec_json_get_u64(p, "ms"@) is Some ==> {
+        let ms = spec_json_get_u64(p, "ms"@).unwrap();
+        &&& r is Ok
+        &&& n.view_snapshot() == (ConfigSnapshot { conn_timeout_ms: clamp_timeout(ms), ..o.view_snapshot() })
+        &&& r->Ok_0 == spec_json_obj(seq![spec_jf("ms"@, spec_jv(clamp_timeout(ms)))])
+    }
+}
+pub open spec fn hp_get_status(o: &DynamicConfig, n: &DynamicConfig, cw: Option<&CriticalWindow>, m: Seq<char>, r: Result<Value, ErrorObject>) -> bool {
+    m == "get_status"@ ==> r is Ok && *n == *o && r->Ok_0 == spec_status_json(o.view_snapshot(), spec_cw_counters(cw))
+}
+pub open spec fn hp_get_stats(o: &DynamicConfig, n: &DynamicConfig, m: Seq<char>, r: Result<Value, ErrorObject>) -> bool {
+    m == "get_stats"@ ==> *n == *o && (r is Err ==> r->Err_0.code == -32603)
+}
+pub open spec fn hp_wf(o: &DynamicConfig, n: &DynamicConfig) -> bool { o.wf() ==> n.wf() }
+// everything the envelope may rely on (and must carry to its own caller)
+pub open spec fn handle_post(o: &DynamicConfig, n: &DynamicConfig, cw: Option<&CriticalWindow>, m: Seq<char>, p: &Value, r: Result<Value, ErrorObject>) -> bool {
+    &&& hp_unknown(o, n, m, r) &&& hp_bad_params(o, n, m, p, r) &&& hp_set_mode(o, n, m, p, r) &&& hp_set_quality(o, n, m, p, r)
+    &&& hp_set_stall(o, n, m, p, r) &&& hp_set_timeout(o, n, m, p, r) &&& hp_get_status(o, n, cw, m, r) &&& hp_get_stats(o, n, m, r) &&& hp_wf(o, n)
+}
 // what the envelope must answer, as a function of the parsed line and of the handler's verdict
 pub open spec fn well_formed_reply(resp: &Response, id: Value) -> bool {
     &&& resp.id == id
@@ -103,6 +197,61 @@ def _setter(t):
 def _noderive(t):
     t = re.sub(r'#\[derive\([^)]*\)\]\s*', '', t)
     t = re.sub(r'\s*#\[serde\([^\]]*\)\]', '', t)
+    return t
+
+
+def _json_macro(t):
+    """`json!({ "k": e, .. })` / `serde_json::json!(..)` -> json_obj(jfields_push(.. jfields_new() .., "k", jv(e)))  (keys and value expressions kept)."""
+    from rustlex import split_top
+    n = 0
+    while True:
+        m = re.search(r'(?:serde_json::)?json!\(', t)
+        if not m:
+            return t
+        op = m.end() - 1
+        cp = match_bracket(t, op, '(', ')')
+        inner = t[op + 1:cp].strip()
+        assert inner.startswith('{') and inner.endswith('}'), inner
+        acc = 'jfields_new()'
+        for part in split_top(inner[1:-1], ','):
+            part = part.strip()
+            if not part:
+                continue
+            mk = re.match(r'("[^"]*")\s*:\s*(.*)$', part, re.S)
+            assert mk, part
+            acc = 'jfields_push(%s, %s, jv(%s))' % (acc, mk.group(1), mk.group(2).strip())
+        t = t[:m.start()] + 'json_obj(' + acc + ')' + t[cp + 1:]
+        n += 1
+
+
+def _params(t):
+    t = re.sub(r'params\s*\.get\(("\w+")\)\s*\.and_then\(Value::as_(str|bool|u64)\)\s*\.ok_or_else\(\|\| ErrorObject::new\((\w+), "[^"]*"\)\)\?',
+               r'json_get_\2(params, \1).ok_or(error_object_new(\3))?', t)
+    return _errnew(t)
+
+
+def _errnew(t):
+    """ErrorObject::new(CODE, <message>) -> error_object_new(CODE): the message text is dropped (R2), the code is kept."""
+    return re.sub(r'ErrorObject::new\(\s*(\w+),\s*(?:String::new\(\)|"(?:[^"\\]|\\.)*")\s*,?\s*\)', r'error_object_new(\1)', t)
+
+
+def _handle_method(t):
+    import rules
+    t, n = rules.r20_str_match(t, 'method')
+    assert n == 8, n
+    t = _params(t)
+    t = re.sub(r'(\w+(?:\.\w+)?)\.to_string\(\)', r'mode_to_string(\1)', t)
+    t = _json_macro(t)
+    t, k = re.subn(r'critical_window\s*\.map\(\|w\| \(w\.windows_received\(\), w\.malformed_datagrams\(\)\)\)\s*\.unwrap_or\(\(0, 0\)\)', 'cw_counters(critical_window)', t)
+    assert k == 1
+    t, k = re.subn(r'stats\s*\.ok_or_else\(\|\| error_object_new\(INTERNAL_ERROR\)\)\?', 'stats.ok_or(error_object_new(INTERNAL_ERROR))?', t)
+    assert k == 1
+    t, k = re.subn(r'stats\.to_json\(\)', 'stats_to_json(stats)', t)
+    assert k == 1
+    m = re.search(r'serde_json::from_str\(&json_str\)\.map_err\(', t)
+    cp = match_bracket(t, m.end() - 1, '(', ')')
+    t = t[:m.start()] + 'reparse_stats(&json_str)' + t[cp + 1:]
+    t = t.replace('config: &DynamicConfig', 'config: &mut DynamicConfig')
     return t
 
 
@@ -153,31 +302,109 @@ def build():
         u.fn(CT, 'err', impl='Response', ret='r', ensures=[C('C18.ctl.response.err_has_error_and_no_result', 'r.id == id && r.result is None && r.error == Some(err)')]),
     ]))
 
+
+    u.add(r"""
+pub proof fn lemma_method_names_distinct()
+    ensures "set_mode"@.len() == 8, "set_quality"@.len() == 11, "set_stall_deselect"@.len() == 18, "set_conn_timeout"@.len() == 16, "get_status"@.len() == 10,
+        "get_stats"@.len() == 9, "subscribe"@.len() == 9, "unsubscribe"@.len() == 11, "classic"@.len() == 7, "enhanced"@.len() == 8, "get_subscription_count"@.len() == 22,
+        "set_quality"@ != "unsubscribe"@, "get_stats"@ != "subscribe"@,
+{
+    reveal_strlit("set_mode"); reveal_strlit("set_quality"); reveal_strlit("set_stall_deselect"); reveal_strlit("set_conn_timeout");
+    reveal_strlit("get_status"); reveal_strlit("get_stats"); reveal_strlit("subscribe"); reveal_strlit("unsubscribe");
+    reveal_strlit("classic"); reveal_strlit("enhanced"); reveal_strlit("get_subscription_count");
+    assert("set_quality"@[0] != "unsubscribe"@[0]);
+    assert("get_stats"@[0] != "subscribe"@[0]);
+}
+""")
+    import rules
+    u.add(u.fn(CT, 'parse_mode', ret='r', post_rewrite=[(lambda t: _params(rules.r20_str_match(t, 's')[0]), None, 1)], ensures=[
+        C('C18.ctl.parse_mode.accepts_exactly_classic_and_enhanced_else_minus_32602',
+          'match r { Ok(md) => valid_mode_name(s@) && md == mode_of_name(s@), Err(e) => !valid_mode_name(s@) && e.code == -32602 }')],
+        splices=[('@BEGIN', '    proof { lemma_method_names_distinct(); }', 'after')]))
+    HP = lambda f, extra='': '%s(old(config), final(config), %smethod@, %sr)' % (f, 'critical_window, ' if f == 'hp_get_status' else '', extra)
+    u.add(u.fn(CT, 'handle_method', ret='r', post_rewrite=[(_handle_method, None, 1)], ensures=[
+        C('C18.ctl.handle.unknown_and_subscription_methods_get_minus_32601_and_change_nothing', HP('hp_unknown')),
+        C('C18.ctl.handle.missing_or_ill_typed_parameters_get_minus_32602_and_change_nothing', HP('hp_bad_params', 'params, ')),
+        C('C18.ctl.handle.set_mode_takes_effect_in_the_snapshot_and_echoes_the_mode', HP('hp_set_mode', 'params, ')),
+        C('C18.ctl.handle.set_quality_takes_effect_in_the_snapshot', HP('hp_set_quality', 'params, ')),
+        C('C18.ctl.handle.set_stall_deselect_takes_effect_in_the_snapshot', HP('hp_set_stall', 'params, ')),
+        C('C18.ctl.handle.set_conn_timeout_applies_and_echoes_the_clamped_value', HP('hp_set_timeout', 'params, ')),
+        C('C18.ctl.handle.get_status_reports_the_current_snapshot_and_changes_nothing', HP('hp_get_status')),
+        C('C18.ctl.handle.get_stats_changes_nothing_and_fails_only_with_minus_32603', HP('hp_get_stats')),
+        C('C18.ctl.handle.timeout_stays_in_1000_60000', 'hp_wf(old(config), final(config))'),
+        # the conjunction of the above under one name: gives call sites the witness term for their `exists hr`
+        'handle_post(old(config), final(config), critical_window, method@, params, r)',
+    ], splices=[('@BEGIN', '    proof { lemma_method_names_distinct(); }', 'after')]))
+
     P = 'spec_parse_request(spec_trim(line@))'
-    u.add(u.fn(CT, 'dispatch_inner', ret='r',
-               post_rewrite=[('let line = line.trim();', 'let line0 = line; let line = str_trim(line);', 1), ('if line.is_empty() {', 'if str_is_empty(line) {', 1),
-                             ('match serde_json::from_str(line) {', 'match parse_request(line) {', 1),
-                             ('Value::Null', 'value_null()', None),
-                             ('message: "parse error".into(),', 'message: String::new(),', 1), ('data: Some(Value::String(e.to_string())),', 'data: value_from_err(&e),', 1),
-                             ('if req.jsonrpc != JSONRPC_VERSION {', 'if string_ne_str(&req.jsonrpc, JSONRPC_VERSION) {', 1),
-                             (re.compile(r'return req\.id\.map\(\|id\| \{\s*Response::err\(\s*id,\s*ErrorObject::new\(INVALID_REQUEST, "[^;]*?"\),\s*\)\s*\}\);', re.S),
-                              'return (match req.id { Some(id) => Some(Response::err(id, error_object_new(INVALID_REQUEST))), None => None });', 1),
-                             ('req.id.clone().unwrap_or(', 'clone_opt_value(&req.id).unwrap_or(', 1),
-                             ('let result = handle_method(config, stats, critical_window, &req.method, &req.params);',
-                              'let result = handle_method(config, stats, critical_window, &req.method, &req.params);\n    proof { handled = handled + 1; }', 1)],
-               ensures=[
-                   C('C18.ctl.dispatch.blank_line_gets_no_response', 'spec_trim(line@).len() == 0 ==> r is None'),
-                   C('C18.ctl.dispatch.unparsable_line_gets_minus_32700_with_null_id', '''spec_trim(line@).len() != 0 && %s is Err ==> r is Some && r.unwrap().error is Some && r.unwrap().error.unwrap().code == -32700
-            && r.unwrap().result is None && r.unwrap().id == spec_value_null()''' % P),
-                   C('C18.ctl.dispatch.wrong_version_gets_minus_32600_echoing_the_id', '''spec_trim(line@).len() != 0 && %s is Ok && %s->Ok_0.jsonrpc@ != "2.0"@ ==>
-            (match %s->Ok_0.id { Some(id) => r is Some && r.unwrap().id == id && r.unwrap().result is None && r.unwrap().error is Some && r.unwrap().error.unwrap().code == -32600, None => r is None })''' % (P, P, P)),
-                   C('C18.ctl.dispatch.request_with_id_gets_exactly_one_well_formed_response_echoing_the_id', '''spec_trim(line@).len() != 0 && %s is Ok && %s->Ok_0.jsonrpc@ == "2.0"@ && %s->Ok_0.id is Some ==>
-            r is Some && well_formed_reply(&r.unwrap(), %s->Ok_0.id.unwrap())
-            && (match spec_handle(%s->Ok_0.method@, &%s->Ok_0.params) { Ok(v) => r.unwrap().result == Some(v), Err(e) => r.unwrap().error == Some(e) })''' % (P, P, P, P, P, P)),
-                   C('C18.ctl.dispatch.notification_gets_no_response', 'spec_trim(line@).len() != 0 && %s is Ok && %s->Ok_0.jsonrpc@ == "2.0"@ && %s->Ok_0.id is None ==> r is None' % (P, P, P)),
-               ],
-               splices=[('@BEGIN', '    let ghost mut handled: int = 0;', 'after'),
-                        ('if is_notification {', '''proof {
-        assert(handled == 1);  // @ob C18.ctl.dispatch.notification_is_still_applied
-    }''', 'before')]))
+    HPOST = 'handle_post(old(config), final(config), critical_window, %s->Ok_0.method@, &%s->Ok_0.params, hr)' % (P, P)
+
+    def envelope(fn, cond=None):
+        """the JSON-RPC envelope contract shared by dispatch_inner and dispatch_async; `cond` restricts the clauses that speak about
+        handle_method to the requests the two entry points must answer identically."""
+        pre = '' if cond is None else '(%s) ==> ' % cond
+        T = lambda n: 'C18.ctl.%s.%s' % (fn, n)
+        return [
+            C(T('blank_line_gets_no_response'), 'spec_trim(line@).len() == 0 ==> r is None && *final(config) == *old(config)'),
+            C(T('unparsable_line_gets_minus_32700_with_null_id'), """spec_trim(line@).len() != 0 && %s is Err ==> r is Some && r.unwrap().error is Some && r.unwrap().error.unwrap().code == -32700
+            && r.unwrap().result is None && r.unwrap().id == spec_value_null() && *final(config) == *old(config)""" % P),
+            C(T('wrong_version_gets_minus_32600_echoing_the_id'), """spec_trim(line@).len() != 0 && %s is Ok && %s->Ok_0.jsonrpc@ != "2.0"@ ==> *final(config) == *old(config) &&
+            (match %s->Ok_0.id { Some(id) => r is Some && r.unwrap().id == id && r.unwrap().result is None && r.unwrap().error is Some && r.unwrap().error.unwrap().code == -32600, None => r is None })""" % (P, P, P)),
+            C(T('request_with_id_gets_exactly_one_well_formed_response_echoing_the_id'),
+              """spec_trim(line@).len() != 0 && %s is Ok && %s->Ok_0.jsonrpc@ == "2.0"@ && %s->Ok_0.id is Some ==>
+            r is Some && well_formed_reply(&r.unwrap(), %s->Ok_0.id.unwrap())""" % (P, P, P, P)),
+            C(T('response_carries_the_verdict_of_handle_method'),
+              """spec_trim(line@).len() != 0 && %s is Ok && %s->Ok_0.jsonrpc@ == "2.0"@ && %s->Ok_0.id is Some ==> %s
+            r is Some && exists|hr: Result<Value, ErrorObject>| #[trigger] %s && (match hr { Ok(v) => r.unwrap().result == Some(v), Err(e) => r.unwrap().error == Some(e) })""" % (P, P, P, pre, HPOST)),
+            C(T('notification_gets_no_response'), 'spec_trim(line@).len() != 0 && %s is Ok && %s->Ok_0.jsonrpc@ == "2.0"@ && %s->Ok_0.id is None ==> r is None' % (P, P, P)),
+            C(T('notification_is_still_applied'),
+              'spec_trim(line@).len() != 0 && %s is Ok && %s->Ok_0.jsonrpc@ == "2.0"@ && %s->Ok_0.id is None ==> %s exists|hr: Result<Value, ErrorObject>| #[trigger] %s' % (P, P, P, pre, HPOST)),
+            C(T('timeout_stays_in_1000_60000'), 'old(config).wf() ==> final(config).wf()'),
+        ]
+
+    ENVELOPE_RW = [('config: &DynamicConfig', 'config: &mut DynamicConfig', 1),
+                   ('let line = line.trim();', 'let line0 = line; let line = str_trim(line);', 1), ('if line.is_empty() {', 'if str_is_empty(line) {', 1),
+                   ('match serde_json::from_str(line) {', 'match parse_request(line) {', 1),
+                   ('Value::Null', 'value_null()', None),
+                   ('message: "parse error".into(),', 'message: String::new(),', 1), ('data: Some(Value::String(e.to_string())),', 'data: value_from_err(&e),', 1),
+                   ('if req.jsonrpc != JSONRPC_VERSION {', 'if string_ne_str(&req.jsonrpc, JSONRPC_VERSION) {', 1),
+                   (re.compile(r'return req\.id\.map\(\|id\| \{\s*Response::err\(\s*id,\s*ErrorObject::new\(INVALID_REQUEST, "[^;]*?"\),\s*\)\s*\}\);', re.S),
+                    'return (match req.id { Some(id) => Some(Response::err(id, error_object_new(INVALID_REQUEST))), None => None });', 1),
+                   ('req.id.clone().unwrap_or(', 'clone_opt_value(&req.id).unwrap_or(', 1),
+                   ('handle_method(config, stats, critical_window, &req.method, &req.params)', 'handle_method(config, stats, critical_window, string_as_str(&req.method), &req.params)', 1),
+                   (_errnew, None, 0)]
+    u.add(u.fn(CT, 'dispatch_inner', ret='r', post_rewrite=ENVELOPE_RW, ensures=envelope('dispatch')))
+    # stdin entry point: a plain forwarder
+    u.add(u.fn(CT, 'dispatch', ret='r', post_rewrite=[('config: &DynamicConfig', 'config: &mut DynamicConfig', 1)], ensures=envelope('dispatch_stdin')))
+    # socket entry point (async erased, R15): same envelope; identical handler verdict for every method unless a subscription context is present
+    # AND the method is one of the three subscription methods
+    u.add(r"""
+// per-connection subscription context: opaque, passed by value (was Option<&mut SubscriptionContext<'_>>); subscription handlers are trusted stubs
+#[verifier::external_body] pub struct SubCtx { _p: () }
+#[verifier::external_body] pub fn handle_subscribe(ctx: SubCtx, params: &Value) -> Result<Value, ErrorObject> { unimplemented!() }
+#[verifier::external_body] pub fn handle_unsubscribe(ctx: SubCtx, params: &Value) -> Result<Value, ErrorObject> { unimplemented!() }
+#[verifier::external_body] pub fn subctx_hub_len(ctx: &SubCtx) -> usize { unimplemented!() }
+pub open spec fn is_subscription_method(m: Seq<char>) -> bool { m == "subscribe"@ || m == "unsubscribe"@ || m == "get_subscription_count"@ }
+""")
+    u.add(u.fn(CT, 'dispatch_async', ret='r', erase_async=True,
+               post_rewrite=ENVELOPE_RW + [("subscription_ctx: Option<&mut SubscriptionContext<'_>>", 'subscription_ctx: Option<SubCtx>', 1),
+                                           ('req.method.as_str()', 'string_as_str(&req.method)', 1),
+                                           (lambda t: rules.r20_str_opt_match(t, 'string_as_str(&req.method)', 'subscription_ctx')[0], None, 1),
+                                           ('ctx.hub.len()', 'subctx_hub_len(&ctx)', 1), (_json_macro, None, 1)],
+               ensures=envelope('dispatch_async', 'subscription_ctx is None || !is_subscription_method(%s->Ok_0.method@)' % P) + [
+                   C('C18.ctl.dispatch_async.subscription_methods_do_not_touch_the_configuration',
+                     'spec_trim(line@).len() != 0 && %s is Ok && subscription_ctx is Some && is_subscription_method(%s->Ok_0.method@) ==> *final(config) == *old(config)' % (P, P))],
+               splices=[('@BEGIN', '    proof { lemma_method_names_distinct(); }', 'after')]))
+    # composition: the reply to get_status after a successful set_conn_timeout shows the clamped value (both through the envelope-level handler contract)
+    u.add(r"""
+pub proof fn lemma_successful_set_is_visible_in_the_next_status(c0: &DynamicConfig, c1: &DynamicConfig, c2: &DynamicConfig, cw: Option<&CriticalWindow>,
+    p1: &Value, r1: Result<Value, ErrorObject>, p2: &Value, r2: Result<Value, ErrorObject>, ms: u64)
+    requires handle_post(c0, c1, cw, "set_conn_timeout"@, p1, r1), spec_json_get_u64(p1, "ms"@) == Some(ms), handle_post(c1, c2, cw, "get_status"@, p2, r2),
+    ensures r1 is Ok, r2 is Ok,
+        r2->Ok_0 == spec_status_json(ConfigSnapshot { conn_timeout_ms: clamp_timeout(ms), ..c0.view_snapshot() }, spec_cw_counters(cw)),  // @ob C18.ctl.lemma.successful_set_conn_timeout_is_visible_in_the_next_status
+        1000 <= c2.view_snapshot().conn_timeout_ms <= 60000,
+{
+    lemma_method_names_distinct();
+}
+""")
     return u
